@@ -1,5 +1,6 @@
 """C16 — query response metadata names each query's real response type."""
 import random
+import re
 
 from .. import casing, common as c, corpus, genbins, l2, translate, rs2lean
 
@@ -23,7 +24,7 @@ def run(ctx):
         ctx.obligation_failed("function-translator(rettype)", "; ".join(rt_problems)[:1500])
     c.prove(ctx, ["Sylvia.Thm.C16"], THEOREMS)
     progs, exes = l2.get_corpus(ctx)
-    ops, expect = {}, {}
+    ops, expect, sent_of = {}, {}, {}
     for p in progs:
         lst = ops.setdefault(p["id"], [])
         parts = l2.parts_of(p, "query")
@@ -36,6 +37,14 @@ def run(ctx):
             expect[(p["id"], op)] = ",".join("%s=%s/true" % (k, want[k]) for k in sorted(want, key=lambda s: s.encode()))
         lst.append("qresp w")
         expect[(p["id"], "qresp w")] = ",".join("%s=%s/true" % (k, allq[k]) for k in sorted(allq, key=lambda s: s.encode()))
+        # the name a client really sends for each query: the key its message serialises under (observed, not predicted)
+        rng_ = random.Random(ctx.seed * 163 + len(lst))
+        for idx, pid_, label, ms in parts:
+            for m in ms:
+                vals = [corpus.rand_value(rng_, a["ty"]) for a in m["args"]]
+                op = "ser %d query %s %s" % (idx, m["name"], corpus.jtext(vals))
+                lst.append(op)
+                sent_of[(p["id"], op)] = (idx, m)
         for k in ("exec", "query", "sudo"):
             op = "anyof " + k
             lst.append(op)
@@ -45,8 +54,30 @@ def run(ctx):
     by_id = {p["id"]: p for p in progs}
     bad = 0
     nq = 0
+    # sendable names per part, as observed
+    sent = {}
     for pid, op, a, b in rows:
+        if (pid, op) in sent_of:
+            idx, m = sent_of[(pid, op)]
+            mm = re.match(r'ok \{"([^"]*)"', a)
+            sent.setdefault((pid, idx), {})[mm.group(1) if mm else "?unreadable:" + a[:40]] = corpus.RESP_TYPES[m["ret_kind"]]
+    for pid, op, a, b in rows:
+        if (pid, op) in sent_of:
+            continue
         want = expect[(pid, op)]
+        if op.startswith("qresp"):
+            # every query a client can send appears once with its own response type, and no other sendable name appears
+            which = op.split(" ")[1]
+            names = {}
+            for (pp, idx), d in sent.items():
+                if pp == pid and (which == "w" or str(idx) == which):
+                    names.update(d)
+            want_sent = ",".join("%s=%s/true" % (k, names[k]) for k in sorted(names, key=lambda s: s.encode()))
+            if want_sent != want and a == want:
+                bad += 1
+                ctx.violation("query-response-table", "%s lists %s but the queries are sent under %s" % (op, a[:300], want_sent[:300]),
+                              {"program": corpus.render_module(by_id[pid]), "op": "%s %s" % (pid, op), "observed": a, "required": want_sent})
+                continue
         nq += want.count("=")
         if a != want:
             bad += 1
